@@ -245,7 +245,7 @@ func (e *fnEnc) instr(in ssa.Instruction) {
 		e.val[in] = res
 	case *ssa.Defer:
 		e.deferred = append(e.deferred, in)
-		e.note("defer: deferred call modelled only in (*parser).parse shape")
+		e.deferInfos = append(e.deferInfos, deferInfo{instr: in, guard: e.curReach, heap: e.curHeap.clone()})
 	case *ssa.RunDefers:
 		e.runDefers(in)
 	case *ssa.Range:
@@ -708,7 +708,11 @@ func (e *fnEnc) checkPosts(res []Term, pos token.Pos, where string) {
 	env.vars = vars
 	env.heap = e.curHeap
 	env.old = heapState{}
-	for _, c := range e.con.Ensures {
+	clauses := e.con.Ensures
+	if e.inRecover {
+		clauses = append(append([]*Clause(nil), clauses...), e.con.EnsuresRecovered...)
+	}
+	for _, c := range clauses {
 		t, err := env.tr(c.Expr, "Bool")
 		if err != nil {
 			e.fail("%s:%d: ensures: %v", c.File, c.Line, err)
@@ -736,8 +740,158 @@ func sortStrings(s []string) {
 	}
 }
 
-func (e *fnEnc) runDefers(in *ssa.RunDefers) {
-	if len(e.deferred) > 0 {
-		e.note("deferred calls run at function exit are abstracted (see (*parser).parse rule)")
+// deferInfo: a deferred closure call and the condition under which the
+// defer statement was executed.
+type deferInfo struct {
+	instr *ssa.Defer
+	guard string
+	heap  heapState
+}
+
+// writesAfter: heap keys that instructions executed after `from` may write.
+func (e *fnEnc) writesAfter(from ssa.Instruction) map[string]bool {
+	out := map[string]bool{}
+	seen := map[*ssa.BasicBlock]bool{}
+	var visit func(b *ssa.BasicBlock, start int)
+	visit = func(b *ssa.BasicBlock, start int) {
+		for i := start; i < len(b.Instrs); i++ {
+			for _, k := range e.writesOf(b.Instrs[i]) {
+				out[k] = true
+			}
+		}
+		for _, s := range b.Succs {
+			if !seen[s] {
+				seen[s] = true
+				visit(s, 0)
+			}
+		}
 	}
+	b := from.Block()
+	for i, in := range b.Instrs {
+		if in == from {
+			visit(b, i+1)
+		}
+	}
+	return out
+}
+
+// runDefers: on a normal return the deferred closures run with recover()
+// returning nil. A deferred call of a closure under contract applies that
+// contract with `recovered` = false, guarded by "the defer statement was
+// executed"; anything else is abstracted (every heap havocked).
+func (e *fnEnc) runDefers(in *ssa.RunDefers) {
+	for i := len(e.deferInfos) - 1; i >= 0; i-- {
+		e.applyDeferred(e.deferInfos[i], false)
+	}
+}
+
+func (e *fnEnc) applyDeferred(d deferInfo, recovered bool) {
+	cc := d.instr.Common()
+	mc, ok := cc.Value.(*ssa.MakeClosure)
+	var con *Contract
+	var ctor *fnCtor
+	if ok {
+		fn := mc.Fn.(*ssa.Function)
+		con = e.V.CS.ByKey[funcKey(fn)]
+		ctor = e.U.fnCtorOf(fn)
+	}
+	pre := e.curHeap.clone()
+	if con == nil {
+		e.havocAllHeaps()
+		e.imprecise = append(e.imprecise, "deferred call without a contract: every heap havocked at function exit")
+	} else {
+		if con.HasAssigns {
+			for _, a := range stripLoc(con.Assigns) {
+				if a == "*" {
+					e.havocAllHeaps()
+					break
+				}
+				if h := e.U.heapByKey(a); h != nil {
+					e.curHeap[a] = e.heapVersion(h)
+				}
+			}
+		} else {
+			e.havocAllHeaps()
+		}
+		post := e.curHeap.clone()
+		extra := map[string]Term{"recovered": {S: fmt.Sprint(recovered), Sort: "Bool"}}
+		fn := mc.Fn.(*ssa.Function)
+		for i, fv := range fn.FreeVars {
+			b := e.get(mc.Bindings[i])
+			if ctor.ByVal[i] {
+				dd := e.descOf(mc.Bindings[i])
+				b = e.loadDesc(dd, pre)
+			}
+			b.T = ctor.CapTs[i]
+			extra[fv.Name()] = b
+		}
+		var args []Term
+		for _, a := range cc.Args {
+			args = append(args, e.get(a))
+		}
+		saved := e.curReach
+		e.applyContractAt(con, args, nil, d.instr.Pos(), d.guard, "deferred:"+shortKey(con.Key), pre, post, extra)
+		e.curReach = saved
+	}
+	// when the defer statement was not executed nothing happens
+	for _, k := range sortedHeapKeys(e.curHeap) {
+		h := e.U.heaps[k]
+		if h == nil {
+			continue
+		}
+		after := e.curHeap[k]
+		before := e.heapTermIn(pre)(h)
+		if after == before {
+			continue
+		}
+		nv := e.heapVersion(h)
+		e.assert(fmt.Sprintf("(= %s (ite %s %s %s))", nv, d.guard, after, before))
+		e.curHeap[k] = nv
+	}
+}
+
+// recoverBlock encodes fn.Recover: control arrives there after a panic was
+// recovered by a deferred function. Everything the function did before the
+// panic is unknown (all heaps havocked); then the deferred closures have run
+// with recover() != nil.
+func (e *fnEnc) recoverBlock() {
+	b := e.fn.Recover
+	if b == nil || len(e.deferInfos) == 0 {
+		return
+	}
+	var guards []string
+	for _, d := range e.deferInfos {
+		guards = append(guards, d.guard)
+	}
+	r := e.fresh("reach.recover", "Bool")
+	e.assert(fmt.Sprintf("(=> %s (or %s))", r, strings.Join(guards, " ")))
+	e.curBlock = b
+	e.curReach = r
+	e.reachIn[b] = r
+	// state at the panic: what held when the (first) defer statement ran,
+	// with every heap key that can be written afterwards havocked
+	first := e.deferInfos[0]
+	e.curHeap = first.heap.clone()
+	ws := e.writesAfter(first.instr)
+	if ws["*"] {
+		e.havocAllHeaps()
+	} else {
+		for _, k := range sortedBoolKeys(ws) {
+			h := e.U.heapByKey(k)
+			if h == nil {
+				h = e.U.heaps[k]
+			}
+			if h != nil {
+				e.curHeap[k] = e.heapVersion(h)
+			}
+		}
+	}
+	for i := len(e.deferInfos) - 1; i >= 0; i-- {
+		e.applyDeferred(e.deferInfos[i], true)
+	}
+	e.inRecover = true
+	for _, in := range b.Instrs {
+		e.instr(in)
+	}
+	e.inRecover = false
 }
